@@ -33,7 +33,7 @@ def cases(tier, seed):
     cs = []
     n = 24 if tier == 'quick' else 400
     for i in range(n):
-        cs.append({'kind': 'roundtrip', 'seed': rng.randrange(1 << 30), 'profile': ['plain', 'equals', 'cert', 'gex', 'rsa', 'cert', 'gss', 'cert'][i % 8], 'all': tier == 'thorough', 'json': i % 2 == 0})
+        cs.append({'kind': 'roundtrip', 'seed': rng.randrange(1 << 30), 'profile': ['plain', 'equals', 'cert', 'gex', 'rsa', 'cert', 'gss', 'cert'][i % 8], 'all': tier == 'thorough', 'json': i % 2 == 0, 'i': i})
     for i in range(6 if tier == 'quick' else 60):
         cs.append({'kind': 'client', 'seed': rng.randrange(1 << 30), 'sym': i % 2 == 0, 'json': i % 3 == 0})
     for i in range(4 if tier == 'quick' else 40):
@@ -63,6 +63,14 @@ def make_peer(c):
     gex = None
     if prof == 'equals':
         k['kex'] = k['kex'] + rng.sample(EQ_NAMES, 2) + [audit.gss_instance(rng, 'gss-group14-sha256-*', forced='+/')]
+        # '=' in cipher and MAC names too, in every shape (digits after it, several of them, at either end), first / in the middle / last in the list
+        for cat, pool in (('enc', ['aes256-mode=7', 'cipher=x=y@example.com', 'c=@example.org']), ('mac', ['hmac-sha2-256-trunc=96', 'mac=a=12', '=mac@example.com'])):
+            j = c.get('i', rng.randrange(72)) // 8     # position and shape cycle with the case index: every position is met in every run
+            name = pool[(j // 3) % 3]
+            lst = list(k[cat + '_sc'])
+            lst.insert([0, len(lst) // 2, len(lst)][(j + 2) % 3], name)
+            k[cat + '_sc'] = lst
+            k[cat + '_cs'] = list(lst)
     if prof == 'gss':
         k['kex'] = [audit.gss_instance(rng, f) for f in rng.sample([x for x in names['kex'] if x.startswith('gss-')], 2)] + k['kex']
     if prof == 'cert':
